@@ -427,6 +427,16 @@ async fn retract_check_process(check_interval: Duration, state_ref: WrappedRcRef
     }
 }
 
+/// Verification hook: the periodic check itself, for a harness that polls it by hand
+/// (the first tick of the interval fires at once).
+#[cfg(feature = "verif")]
+pub(crate) fn verif_retract_check_process(
+    check_interval: Duration,
+    state_ref: WrappedRcRefCell<WorkerState>,
+) -> impl Future<Output = ()> {
+    retract_check_process(check_interval, state_ref)
+}
+
 pub(crate) fn process_worker_message(state: &mut WorkerState, message: ToWorkerMessage) -> bool {
     match message {
         ToWorkerMessage::ComputeTasks(msg) => {
